@@ -31,6 +31,11 @@ func latestRestart(p *corev1.Pod) time.Time {
 }
 
 func (monC06) TaskEnd(s *Sim, t *Task) {
+	if t.Ctrl == CtrlERS && t.Panic != nil && !t.Crashed {
+		if v := t.View(); v.EDS != nil && v.ERS != nil && v.Role() == "canary" {
+			s.Violate("C06", "sync-crashed", panicSite(t.Stack), "%s (canary) crashed (%v): neither Canary-Failed nor Canary-Paused can be decided for this canary", t.Label(), t.Panic)
+		}
+	}
 	if t.Ctrl != CtrlERS || !t.Clean() {
 		return
 	}
@@ -261,6 +266,18 @@ func (monC06) PostCall(s *Sim, c *Call) {
 	pre, post := &edsv1.ExtendedDaemonSetReplicaSet{}, &edsv1.ExtendedDaemonSetReplicaSet{}
 	_ = json.Unmarshal(c.Pre, pre)
 	_ = json.Unmarshal(c.Out, post)
+	// A pause (by annotation or by the replica set's own decision) ends on a manual unpause or when
+	// the replica set becomes active - not because it was superseded for a while.
+	if ersCondTrue(&pre.Status, edsv1.ConditionTypeCanaryPaused) && !ersCondTrue(&post.Status, edsv1.ConditionTypeCanaryPaused) && !ersCondTrue(&post.Status, edsv1.ConditionTypeCanaryFailed) {
+		if v := t.View(); v.EDS != nil && v.ERS != nil && v.Role() != "active" && !annTrue(v.EDS.Annotations, edsv1.ExtendedDaemonSetCanaryUnpausedAnnotationKey) {
+			s.Violate("C08", "pause-erased", v.Role(), "%s (role %s) cleared the Canary-Paused condition of %s although nobody unpaused or validated it", t.Label(), v.Role(), post.Name)
+		}
+	}
+	// The record of the last canary pod restart only moves forward.
+	if a, b := ersCond(&pre.Status, edsv1.ConditionTypePodRestarting), ersCond(&post.Status, edsv1.ConditionTypePodRestarting); a != nil && b != nil && b.LastUpdateTime.Time.Before(a.LastUpdateTime.Time) {
+		s.Violate("C05", "restart-tracking", "rewound", "%s moved the recorded last restart back from %s to %s: noRestartsDuration would be measured from an older restart", t.Label(), a.LastUpdateTime.UTC().Format(time.RFC3339), b.LastUpdateTime.UTC().Format(time.RFC3339))
+		s.Violate("C06", "restart-tracking", "rewound", "%s moved the recorded last restart back from %s to %s", t.Label(), a.LastUpdateTime.UTC().Format(time.RFC3339), b.LastUpdateTime.UTC().Format(time.RFC3339))
+	}
 	if !ersCondTrue(&pre.Status, edsv1.ConditionTypeCanaryFailed) || ersCondTrue(&post.Status, edsv1.ConditionTypeCanaryFailed) {
 		return
 	}
